@@ -4,10 +4,12 @@ import RTV.Gen.DateRegexEs
 import RTV.Gen.DateRegexFr
 import RTV.Gen.DateRegexPt
 import RTV.Gen.DateRegexDe
+import RTV.Gen.DateRegexIt
+import RTV.Gen.DateRegexNl
 import RTV.Gen.DtMapsX1
 import RTV.Gen.DtMapsX2
 /-! Driver handlers for L6 `DateFront` with a CULTURE argument (C06 front end of every BaseDateParser culture whose
-`date_regex` list is regenerated: en-us, es-es, es-mx, fr-fr, pt-br, de-de). Same answers as the `df.*` operations of
+`date_regex` list is regenerated: en-us, es-es, es-mx, fr-fr, pt-br, de-de, it-it, nl-nl). Same answers as the `df.*` operations of
 RTV/Drv/DateFront.lean (which stay: English), the culture tag comes first:
   dfc.parse <cul> <real|ascii|latin> <cps>        -> idx|prefixed|start|stop|year|month|day|fullyear|weekday | none | unsupported
   dfc.search <cul> <k> <real|ascii|latin> <cps>   -> start|stop|spans | none | unsupported
@@ -50,6 +52,12 @@ def culFront (tag : String) : Option CulFront :=
   else if tag == "de-de" then
     some ⟨RTV.Gen.DateRegexDe.dateTokenPrefix, RTV.Gen.DateRegexDe.dateRegexes,
       mkCfg RTV.Gen.DtMaps.monthOfYear_de RTV.Gen.DtMaps.dayOfMonth_de⟩
+  else if tag == "it-it" then
+    some ⟨RTV.Gen.DateRegexIt.dateTokenPrefix, RTV.Gen.DateRegexIt.dateRegexes,
+      mkCfg RTV.Gen.DtMaps.monthOfYear_it RTV.Gen.DtMaps.dayOfMonth_it⟩
+  else if tag == "nl-nl" then
+    some ⟨RTV.Gen.DateRegexNl.dateTokenPrefix, RTV.Gen.DateRegexNl.dateRegexes,
+      mkCfg RTV.Gen.DtMaps.monthOfYear_nl RTV.Gen.DtMaps.dayOfMonth_nl⟩
   else none
 
 /-- `real` = the tables of the running `regex` module, `ascii`, `latin` (ASCII + the Latin-1 letters as `\w`) -/
